@@ -17,11 +17,12 @@ explicit carve-out, and a monitor key in the harness:
 * time, "as requested … no silent wrap": `intTimeToMicros` / `arrowTimestampToMicros` multiply in
   wrapping int64 arithmetic and cannot reject (`C31_time_int_witness`, `C31_time_arrow_witness`).
   FULL STATEMENT (false):  ∀ n fmt, inI64 n → intTimeToMicros n fmt = n · unit(fmt) ∨ rejected.
-* "converted to its inferred type without loss": integer cells of a column that is demoted to
-  float (or that exceed int64) are rounded to 53 bits (`C31_infer_float_witness`), cells beyond the
-  header width are dropped (`C31_extra_fields_witness`), `_`-prefixed columns are dropped at the
-  Parquet schema step (`C31_underscore_witness`).
-  FULL STATEMENT (false):  ∀ column, ∀ cell, render (stored cell) = canon cell.
+* "converted to its inferred type without loss": FIXED in /repo (8033d9e, 273e2e1, 306d476,
+  83c5101) and now proved at full strength for the modelled classes (`C31_infer_lossless_int/_str/
+  _bool/_float`, `C31_no_cell_dropped`, `C31_no_column_dropped`, `C31_uint64_exact`); the former
+  witnesses are kept as HISTORY theorems (`C31_infer_big_int_stays_text`, `C31_long_row_rejected`,
+  `C31_underscore_rejected`, `C31_uint64_rejected`).  Still open, outside the model (library
+  parameters): CRLF inside quoted CSV fields, DECIMAL128 → float64.
 * "rejected without storing a partial import": a storage write fault on the k-th hour file leaves
   the first k files in storage (`C31_flush_fault_witness`); for every INPUT-caused failure the clause
   holds at full strength (`C31_all_or_nothing`).
@@ -146,6 +147,13 @@ theorem C31_time_arrow_witness :
     arrowTimestampToMicros 9223372036854776 "Millisecond" = -9223372036854775616 := by decide
 
 /-! ## 2. type inference and value conversion -/
+
+/-- the guards of the current source, as regenerated facts -/
+theorem C31_repairs_tied :
+    Arc.Generated.C31.rejectLongRows = true ∧ Arc.Generated.C31.headerRejectsUnderscore = true ∧
+    Arc.Generated.C31.uint64RangeChecked = true ∧ Arc.Generated.C31.inexactIntsStayText = true ∧
+    Arc.Generated.C31.underscoreSkips = 2 := by decide
+
 
 theorem toDigits_eq_zero {m : Nat} (h : Nat.toDigits 10 m = ['0']) : m = 0 := by
   have := Nat.ofDigitChars_ten_toDigits (n := m)
@@ -328,13 +336,49 @@ theorem C31_infer_lossless_float_partial (n : Int) (h : -9007199254740992 ≤ n 
       have : n = 9007199254740992 := by omega
       subst this; decide
 
-/-- WITNESS (findings `value-lossy:int-demoted-to-float`, `value-lossy:int-beyond-int64-as-float`):
-one decimal cell demotes the column to float and two DIFFERENT integer cells are stored as the
-SAME float64 (2^53+1 ↦ 2^53); an unsigned 64-bit id is rounded likewise. -/
-theorem C31_infer_float_witness :
+/-- FLOAT columns are lossless for integer cells (full strength since /repo 83c5101): a column is
+typed float only if every integer cell before the demotion point is within ±2^53 — so
+`float64(n)` is exact — and no later integer literal parses to |f| ≥ 2^53.  (Decimal literals →
+nearest float64 is the documented normal form; ParseFloat itself is a parameter.) -/
+theorem C31_infer_lossless_float (pf : Cell → Option Nat) (raw : List Cell) (vs : List Nat) (v : Option (List Bool))
+    (h : inferCol pf raw = (.float vs, v)) :
+    (∀ c ∈ raw.takeWhile intOK, roundF64 (intCell c) = intCell c) ∧
+    (∀ c ∈ raw.dropWhile intOK, c ≠ [] → intSyntax c = true → f64AbsGe2p53 ((pf c).getD 0) = false) := by
+  unfold inferCol at h
+  by_cases h1 : raw.any (fun c => !c.isEmpty) = true
+  · simp only [h1, Bool.not_true, Bool.false_eq_true, if_false] at h
+    split at h
+    · simp at h
+    · split at h
+      · rename_i hcond
+        simp only [Bool.and_eq_true] at hcond
+        have hg := hcond.2
+        simp only [exactGuards, C31_repairs_tied.2.2.2.1, Bool.not_true, Bool.false_or, Bool.and_eq_true,
+          List.all_eq_true] at hg
+        constructor
+        · intro c hc
+          have := hg.1 c hc
+          simp only [smallInt, Bool.and_eq_true, decide_eq_true_eq] at this
+          exact C31_infer_lossless_float_partial _ this
+        · intro c hc hne hsyn
+          have := hg.2 c hc
+          have hce : c.isEmpty = false := by cases c with | nil => exact absurd rfl hne | cons _ _ => rfl
+          simp only [hce, Bool.false_or, hsyn, Bool.and_true, Bool.not_eq_true'] at this
+          exact this
+      · split at h <;> simp at h
+  · simp [h1] at h
+
+/-- HISTORY (findings `value-lossy:int-demoted-to-float`, `value-lossy:int-beyond-int64-as-float`,
+fixed in /repo 83c5101): these columns used to be stored as float64 with 2^53+1 ↦ 2^53 and
+2^64-1 ↦ 2^64 (`roundF64`, `parseFloatDigits` below show the rounding); they now stay text. -/
+theorem C31_infer_big_int_stays_text :
     (inferCol (fun c => if c = "0.5".toList then some 0x3fe0000000000000 else none)
         ["9007199254740993".toList, "9007199254740992".toList, "0.5".toList]).1
-      = .float [0x4340000000000000, 0x4340000000000000, 0x3fe0000000000000] ∧
+      = .str ["9007199254740993".toList, "9007199254740992".toList, "0.5".toList] ∧
+    (inferCol (fun c => if c = "1.5".toList then some 0x3ff8000000000000
+                        else if c = "18446744073709551615".toList then some 0x43f0000000000000 else none)
+        ["1.5".toList, "18446744073709551615".toList]).1
+      = .str ["1.5".toList, "18446744073709551615".toList] ∧
     roundF64 9007199254740993 = 9007199254740992 ∧
     parseInt "18446744073709551615".toList = none ∧
     parseFloatDigits "18446744073709551615".toList = some 0x43f0000000000000 ∧
@@ -422,14 +466,14 @@ theorem C31_rows_hour (rows : List Row) : ∀ f ∈ hourFiles rows, ∀ r ∈ f.
   have := (List.mem_filter.mp hr).2
   simpa using this
 
-/-- ACCEPTED ⇒ one stored row per data record: the header and exactly `skip_rows` leading records
-are excluded, every other record of the file becomes one row (ragged records are padded /
-truncated to the header width, see `C31_extra_fields_witness`). -/
-theorem C31_rows (pf : Cell → Option Nat) (fb : Cell → Option Int) (x : CsvIn) (b : Batch)
+/-- what an accepted CSV conversion looks like -/
+theorem convertCSV_shape (pf : Cell → Option Nat) (fb : Cell → Option Int) (x : CsvIn) (b : Batch)
     (h : convertCSV pf fb x = some b) :
-    b.time.length = (x.recs.drop (x.skip.toNat + 1)).length ∧
-    (batchRows b).length = (x.recs.drop (x.skip.toNat + 1)).length ∧
-    0 < b.time.length := by
+    ∃ h00 hr body ti, x.recs.drop x.skip.toNat = (h00 :: hr) :: body ∧
+      validateHeader (stripBOM h00 :: hr) x.timeCol = some ti ∧ body ≠ [] ∧
+      (∀ r ∈ body, r.length ≤ hr.length + 1) ∧
+      timeCells fb x.fmt (column (body.map (padTo (hr.length + 1))) ti) = some b.time ∧
+      (∀ c ∈ b.cols, c.name ∈ stripBOM h00 :: hr) := by
   unfold convertCSV at h
   by_cases hd : x.delimOk = true
   · by_cases hl : x.recs.length < x.skip.toNat
@@ -449,22 +493,102 @@ theorem C31_rows (pf : Cell → Option Nat) (fb : Cell → Option Int) (x : CsvI
             simp only [hv] at h
             by_cases he : body = []
             · subst he; simp at h
-            · cases ht : timeCells fb x.fmt (column (body.map (padTo (hr.length + 1))) ti) with
-              | none => simp [he, ht] at h
-              | some tm =>
-                simp [he, ht] at h
-                subst h
-                have hl2 := timeCells_length fb x.fmt _ tm ht
-                simp only [column, List.length_map] at hl2
-                have hbody : (x.recs.drop (x.skip.toNat + 1)) = body := by
-                  rw [← List.drop_drop, hrest]; rfl
-                have hpos : 0 < body.length := by
-                  cases body with
-                  | nil => exact absurd rfl he
-                  | cons _ _ => simp
-                simp only [batchRows, List.length_map, List.length_range, hl2, hbody]
-                exact ⟨trivial, trivial, hpos⟩
+            · by_cases hlong : body.any (fun r => decide (r.length > hr.length + 1)) = true
+              · simp [he, hlong, C31_repairs_tied.1] at h
+              · cases ht : timeCells fb x.fmt (column (body.map (padTo (hr.length + 1))) ti) with
+                | none => simp [he, ht] at h
+                | some tm =>
+                  have hlong' : ∀ r ∈ body, r.length ≤ hr.length + 1 := by
+                    intro r hr'
+                    have := hlong
+                    simp only [List.any_eq_true, decide_eq_true_eq, not_exists, not_and] at this
+                    have := this r hr'
+                    omega
+                  simp [he, ht, C31_repairs_tied.1] at h
+                  obtain ⟨_, hb⟩ := h
+                  subst hb
+                  refine ⟨h00, hr, body, ti, rfl, hv, he, hlong', ht, ?_⟩
+                  intro c hc
+                  simp only [List.mem_filterMap, List.mem_range] at hc
+                  obtain ⟨i, hi, hci⟩ := hc
+                  split at hci
+                  · simp at hci
+                  · simp only [Option.some.injEq] at hci
+                    subst hci
+                    simp only []
+                    have hlt : i < (stripBOM h00 :: hr).length := by simpa using hi
+                    simp [List.getD, List.getElem?_eq_getElem hlt]
   · simp [hd] at h
+
+/-- ACCEPTED ⇒ one stored row per data record: the header and exactly `skip_rows` leading records
+are excluded, every other record of the file becomes one row. -/
+theorem C31_rows (pf : Cell → Option Nat) (fb : Cell → Option Int) (x : CsvIn) (b : Batch)
+    (h : convertCSV pf fb x = some b) :
+    b.time.length = (x.recs.drop (x.skip.toNat + 1)).length ∧
+    (batchRows b).length = (x.recs.drop (x.skip.toNat + 1)).length ∧
+    0 < b.time.length := by
+  obtain ⟨h00, hr, body, ti, hrest, _, he, _, ht, _⟩ := convertCSV_shape pf fb x b h
+  have hl2 := timeCells_length fb x.fmt _ _ ht
+  simp only [column, List.length_map] at hl2
+  have hbody : (x.recs.drop (x.skip.toNat + 1)) = body := by
+    rw [← List.drop_drop, hrest]; rfl
+  have hpos : 0 < body.length := by
+    cases body with
+    | nil => exact absurd rfl he
+    | cons _ _ => simp
+  simp only [batchRows, List.length_map, List.length_range, hl2, hbody]
+  exact ⟨trivial, trivial, hpos⟩
+
+/-- NO CELL IS DROPPED (full strength since /repo 8033d9e; before it `C31_extra_fields_witness`
+showed a surplus cell being discarded): in an accepted file no data record is longer than the
+header, so padding to the header width keeps every cell. -/
+theorem C31_no_cell_dropped (pf : Cell → Option Nat) (fb : Cell → Option Int) (x : CsvIn) (b : Batch)
+    (h : convertCSV pf fb x = some b) :
+    ∀ r ∈ x.recs.drop (x.skip.toNat + 1), r.length ≤ ((x.recs.drop x.skip.toNat).headD []).length ∧
+      (padTo ((x.recs.drop x.skip.toNat).headD []).length r).take r.length = r := by
+  obtain ⟨h00, hr, body, ti, hrest, _, _, hlong, _, _⟩ := convertCSV_shape pf fb x b h
+  have hbody : (x.recs.drop (x.skip.toNat + 1)) = body := by
+    rw [← List.drop_drop, hrest]; rfl
+  intro r hrm
+  rw [hbody] at hrm
+  have hle := hlong r hrm
+  rw [hrest]
+  simp only [List.headD_cons, List.length_cons]
+  refine ⟨hle, ?_⟩
+  unfold padTo
+  rw [List.take_take, Nat.min_eq_left hle, List.take_append_of_le_length (Nat.le_refl _)]
+  simp
+
+/-- NO COLUMN IS DROPPED (full strength since /repo 273e2e1; before it `C31_underscore_witness`
+showed a `_`-column vanishing at the Parquet schema step): every converted column of an accepted
+CSV file reaches the stored rows. -/
+theorem C31_no_column_dropped (pf : Cell → Option Nat) (fb : Cell → Option Int) (x : CsvIn) (b : Batch)
+    (h : convertCSV pf fb x = some b) : b.cols.filter storedCol = b.cols := by
+  obtain ⟨h00, hr, body, ti, _, hv, _, _, _, hnames⟩ := convertCSV_shape pf fb x b h
+  apply List.filter_eq_self.mpr
+  intro c hc
+  have hmem := hnames c hc
+  unfold validateHeader at hv
+  split at hv
+  · simp at hv
+  · rename_i hne
+    split at hv
+    · simp at hv
+    · rename_i hus
+      simp only [C31_repairs_tied.2.1, Bool.true_and, Bool.not_eq_true] at hus
+      have h1 : c.name.isEmpty = false := by
+        have := hne
+        simp only [Bool.not_eq_true, List.any_eq_false] at this
+        simpa using this c.name hmem
+      have h2 : ¬ (c.name.head? = some '_') := by
+        have := List.any_eq_false.mp hus c.name hmem
+        simpa using this
+      unfold storedCol
+      cases hn : c.name with
+      | nil => simp [hn] at h1
+      | cons ch rest =>
+        simp only [hn, List.head?_cons, Option.some.injEq] at h2
+        simp [h2]
 
 /-! ## 4. all-or-nothing -/
 
@@ -545,24 +669,46 @@ theorem C31_flush_partial (files : List (Int × List Row)) : flushFiles files no
 
 /-! ## 5. further witnesses of silent loss in ACCEPTED files -/
 
-/-- WITNESS (finding `value-lossy:extra-fields-dropped`): a data record with more fields than the
-header is accepted and the surplus cell is discarded. -/
-theorem C31_extra_fields_witness :
+/-- HISTORY (finding `value-lossy:extra-fields-dropped`, fixed in /repo 8033d9e): a data record
+with more fields than the header used to be accepted with the surplus cell discarded; it is now
+rejected (see `C31_no_cell_dropped`). -/
+theorem C31_long_row_rejected :
     (convertCSV (fun _ => none) (fun _ => none)
       { delimOk := true, skip := 0, timeCol := timeLit, fmt := "epoch_s",
         recs := [["time".toList, "v".toList], ["1".toList, "5".toList, "dropped".toList]] })
-    = some { time := [1000000], cols := [{ name := "v".toList, col := .int [5], validity := none }] } := by decide +kernel
+    = none := by decide +kernel
 
-/-- WITNESS (finding `value-lossy:underscore-column-dropped`): a column whose name starts with `_`
-is converted but never reaches the stored rows. -/
-theorem C31_underscore_witness :
+/-- HISTORY (finding `value-lossy:underscore-column-dropped`, fixed in /repo 273e2e1): the Parquet
+writer still skips `_`-columns (first conjunct), which is why the header validation now rejects
+such names for CSV and Parquet imports (second and third conjunct; see `C31_no_column_dropped`). -/
+theorem C31_underscore_rejected :
     batchRows { time := [1000000], cols := [{ name := "_v".toList, col := .int [5], validity := none }] }
-      = [{ time := 1000000, vals := [] }] := by decide
+      = [{ time := 1000000, vals := [] }] ∧
+    validateHeader [timeLit, "_v".toList] timeLit = none ∧
+    convertPQ { timeCol := timeLit, fmt := "", cols := [
+      { name := timeLit, kind := .i64, cells := [{ v := .i 1 }] },
+      { name := "_v".toList, kind := .i64, cells := [{ v := .i 5 }] }] } = none := by decide
 
-/-- WITNESS (finding `value-lossy:uint64-wrapped`): a Parquet UINT64 value above MaxInt64 is stored
-as a negative int64. -/
-theorem C31_uint64_witness :
-    (pqTyped { name := "u".toList, kind := .u64, cells := [{ v := .i 18446744073709551615 }] })
-      = some { name := "u".toList, col := .int [-1], validity := none } := by decide
+/-- UINT64 is exact or rejected (full strength since /repo 306d476): an accepted UINT64 column has
+no value above MaxInt64, so the int64 reinterpretation never wraps. -/
+theorem C31_uint64_exact (c : PCol) (tc : TCol) (hk : c.kind = .u64) (h : pqTyped c = some tc) :
+    ∀ x ∈ c.cells, ∀ n, x.v = .i n → n ≤ maxI64 ∧ (0 ≤ n → wrap64 n = n) := by
+  unfold pqTyped at h
+  simp only [hk, C31_repairs_tied.2.2.1, Bool.true_and] at h
+  split at h
+  · simp at h
+  · rename_i hany
+    intro x hx n hn
+    have := List.any_eq_false.mp (by simpa using hany) x hx
+    simp only [hn, decide_eq_true_eq] at this
+    have hle : n ≤ maxI64 := by simpa using this
+    refine ⟨hle, fun h0 => wrap64_id ?_⟩
+    unfold inI64; unfold maxI64 at hle; omega
+
+/-- HISTORY (finding `value-lossy:uint64-wrapped`): 2^64-1 used to be stored as -1; now rejected. -/
+theorem C31_uint64_rejected :
+    (pqTyped { name := "u".toList, kind := .u64, cells := [{ v := .i 18446744073709551615 }] }) = none ∧
+    (pqTyped { name := "u".toList, kind := .u64, cells := [{ v := .i 9223372036854775807 }] })
+      = some { name := "u".toList, col := .int [9223372036854775807], validity := none } := by decide
 
 end Arc.C31
